@@ -1,15 +1,23 @@
 """Helpers for record-judging checks (pure functions): run harness, let TLC judge, collect BAD records."""
+import atexit
 import json
 import os
+import shutil
 import subprocess
 
 from . import tlc
 from .build import BUILD
 
+_workdirs = []
+
 
 def workdir(pid):
-    d = os.path.join(BUILD, "work", pid)
+    """per-process scratch directory (several checks of the same property may run side by side); removed at exit"""
+    d = os.path.join(BUILD, "work", "%s-%d" % (pid, os.getpid()))
     os.makedirs(d, exist_ok=True)
+    if d not in _workdirs:
+        _workdirs.append(d)
+        atexit.register(shutil.rmtree, d, True)
     return d
 
 
